@@ -78,6 +78,10 @@ func oracle(sc *Scenario, tr *trace) (*Violation, bool, bool, []int) {
 	}
 	// partitions whose time index got ahead of the journal: acknowledged records were lost at the end of a session
 	tainted := make([]bool, np)
+	// a crash (or the substitution of an older snapshot) leaves cindex.dat behind the chunks; the staleness persists over later
+	// sessions - also cleanly stopped ones - as long as nothing makes the time index look at the partition's chunks again:
+	// the cause is remembered per partition until a RANGE answer for it is complete again
+	staleCause := make([]string, np)
 	taintList := func() []int {
 		var l []int
 		for p, t := range tainted {
@@ -148,6 +152,9 @@ func oracle(sc *Scenario, tr *trace) (*Violation, bool, bool, []int) {
 		// shows (the harness asked again for a while: an index found inconsistent by a write is rebuilt in the background)
 		for p := 0; p < np && p < len(pre.Parts); p++ {
 			if !pre.Parts[p].Exists || rangeComplete(sc, pre.Parts[p].Events, pre.Ranges[p]) {
+				if pre.Parts[p].Exists {
+					staleCause[p] = "" // the index covers the chunk again
+				}
 				continue
 			}
 			if so := tr.obs[si]; !so.Blind && p < len(so.Parts) && so.Parts[p].Exists && !rangeComplete(sc, so.Parts[p].Events, so.Ranges[p]) {
@@ -163,9 +170,18 @@ func oracle(sc *Scenario, tr *trace) (*Violation, bool, bool, []int) {
 					reason = "cindex-stale"
 				case crashed(prev):
 					reason = "after-kill"
+				case staleCause[p] != "":
+					reason = staleCause[p]
 				}
 			}
 			add("range-hides-events:"+reason, "session %d, before its end: partition %d holds %v, RANGE [%d:%d] answers %v", si, p, pre.Parts[p].Events, sc.Range[0], sc.Range[1], pre.Ranges[p])
+		}
+		for p := range staleCause {
+			if has(ss.Surgery, "cindex-stale") {
+				staleCause[p] = "cindex-stale"
+			} else if crashed(ss) && staleCause[p] == "" {
+				staleCause[p] = "after-kill"
+			}
 		}
 		S := ss.Surgery
 		o := tr.obs[si+1]
@@ -252,10 +268,14 @@ func oracle(sc *Scenario, tr *trace) (*Violation, bool, bool, []int) {
 					reason = "cindex-stale"
 				} else if crashed(ss) {
 					reason = "after-kill"
+				} else if staleCause[p] != "" {
+					reason = staleCause[p]
 				}
 				add("range-hides-events:"+reason, "%s: partition %d holds %v, RANGE [%d:%d] answered %v before and answers %v now", where, p, pv.Events, sc.Range[0], sc.Range[1], before, o.Ranges[p])
 			} else if !isSubseq(o.Ranges[p], inr) {
 				add("range-invents-events", "%s: partition %d holds %v, RANGE [%d:%d] answers %v", where, p, pv.Events, sc.Range[0], sc.Range[1], o.Ranges[p])
+			} else {
+				staleCause[p] = "" // complete: the index covers the chunks again
 			}
 			acked[p] = append([]int64{}, pv.Events...)
 			flushed[p] = append([]int64{}, pv.Events...)
